@@ -18,6 +18,8 @@
 //!                              variants seeded by vseed; flags: `m` trivia metamorphism applies, `c`
 //!                              keyword tokens stand in keyword positions (case metamorphism applies), `-` none
 //!     t K <hex> | t T <hex>    a keyword token / any other token
+//!   mode json                  like `mode raw`; the input is in (or near) KIP's JSON dialect and is compared
+//!                              with the Lean model of `parse_json` (request `j <hex>`): verdict and value
 //!   mode same <key>            explicit metamorphic set: every line is a whole input, all of them must
 //!     s <hex>                  parse to the same result (failure key = <key>)
 //!   mode words                 correspondence of `words(&[..])` / `trivia1`: every line is a separator;
@@ -136,6 +138,8 @@ impl Drop for ChildProc {
 #[derive(Clone, Debug)]
 enum Case {
     Raw(String),
+    /// compared with the model of `parse_json` as well
+    Json(String),
     /// `vseed` fixes the random choices of the metamorphic variants (kept stable while shrinking)
     Tok { flags: String, vseed: u64, toks: Vec<Tok> },
     /// inputs that must all parse to the same result
@@ -146,8 +150,8 @@ enum Case {
 
 fn case_to_ops(c: &Case) -> Vec<String> {
     match c {
-        Case::Raw(s) => {
-            let mut ops = vec!["mode raw".to_string()];
+        Case::Raw(s) | Case::Json(s) => {
+            let mut ops = vec![if matches!(c, Case::Json(_)) { "mode json".to_string() } else { "mode raw".to_string() }];
             // runs of one repeated character are stored as `rep`, the rest in small chunks
             let chars: Vec<char> = s.chars().collect();
             let mut i = 0;
@@ -211,7 +215,8 @@ fn ops_to_case(ops: &[String]) -> Option<Case> {
     let ops = &ops[..];
     let head: Vec<&str> = ops.first()?.split_whitespace().collect();
     match head.as_slice() {
-        ["mode", "raw"] => {
+        ["mode", m @ ("raw" | "json")] => {
+            let is_json = *m == "json";
             let mut s = String::new();
             for l in &ops[1..] {
                 let w: Vec<&str> = l.split_whitespace().collect();
@@ -230,7 +235,7 @@ fn ops_to_case(ops: &[String]) -> Option<Case> {
                     _ => return None,
                 }
             }
-            Some(Case::Raw(s))
+            Some(if is_json { Case::Json(s) } else { Case::Raw(s) })
         }
         ["mode", "words"] => {
             let mut seps = Vec::new();
@@ -298,6 +303,8 @@ struct Worker {
     /// failures shrunk so far, per key (shrinking is expensive: the first few of a kind only)
     shrunk_per_key: BTreeMap<String, u32>,
     located_per_key: BTreeMap<String, u32>,
+    /// the case being evaluated is a `mode json` case
+    json_mode: bool,
 }
 
 #[derive(Clone)]
@@ -305,6 +312,8 @@ struct Ev {
     status: String,
     family: String,
     tree: String,
+    json_ok: bool,
+    json_canon: String,
 }
 
 fn clip(s: &str, n: usize) -> String {
@@ -359,7 +368,7 @@ impl Worker {
             o.hits.push("reflex-vs-parser:checked".into());
         }
         let kip = g("kip");
-        let ev = Ev { status: if kip == "ok" { "ok".into() } else { "err".into() }, family: g("family"), tree: g("tree") };
+        let ev = Ev { status: if kip == "ok" { "ok".into() } else { "err".into() }, family: g("family"), tree: g("tree"), json_ok: g("json") == "ok", json_canon: g("json_canon") };
         o.hits.push(format!("result:{}", if kip == "ok" { format!("ok-{}", ev.family) } else { kip.clone() }));
         if label == "base" || label == "raw" || label == "#0" {
             o.base_result = kip.clone();
@@ -374,6 +383,23 @@ impl Worker {
             let req = format!("k {} {}", if x.is_empty() { "-".to_string() } else { hex(x.as_bytes()) }, alnum);
             let ans = m.ask(&req);
             o.model_compared += 1;
+            // parse_json against its Lean model: always in json mode, and whenever parse_json accepted
+            let ij = g("json");
+            if (self.json_mode || ij == "ok") && x.len() <= 300_000 {
+                let mj = m.ask(&format!("j {}", if x.is_empty() { "-".to_string() } else { hex(x.as_bytes()) }));
+                o.model_compared += 1;
+                let ij_full = match ij.as_str() {
+                    "ok" => format!("ok {}", g("json_canon")),
+                    "err:too_long" => "too_long".to_string(),
+                    "err:too_deep" => "too_deep".to_string(),
+                    "err:syntax" => "err".to_string(),
+                    other => other.to_string(),
+                };
+                o.hits.push(format!("json:{}", mj.split(' ').next().unwrap_or("")));
+                if mj != ij_full {
+                    o.disagreements.push((format!("parse_json differs from its model on the {label} input {}", clip(x, 200)), clip(&mj, 300), clip(&ij_full, 300)));
+                }
+            }
             // the oracle's own reference lexer against the Lean one (a check of the harness, on a sample)
             if !x.is_empty() && x.len() <= 1500 && o.strings % 3 == 1 {
                 let lean = m.ask(&format!("x {}", hex(x.as_bytes())));
@@ -419,11 +445,12 @@ impl Worker {
             o.hits.push("case:malformed-ops".into());
             return o;
         };
+        self.json_mode = matches!(case, Case::Json(_));
         match case {
-            Case::Raw(s) => {
+            Case::Raw(s) | Case::Json(s) => {
                 if let Some(ev) = self.eval_string(&s, "raw", &mut o) {
-                    o.nontrivial = ev.status == "ok";
-                    o.canon = format!("{}|{}", ev.status, ev.tree);
+                    o.nontrivial = ev.status == "ok" || (self.json_mode && ev.json_ok);
+                    o.canon = format!("{}|{}|{}", ev.status, ev.tree, if self.json_mode { &ev.json_canon } else { "" });
                     if o.nontrivial {
                         o.sample = Some(json!({"input": clip(&s, 200), "family": ev.family}));
                     }
@@ -590,7 +617,17 @@ fn generate(seed: u64, i: u64, thorough: bool, lexical_focus: bool) -> (Case, Ve
             _ => k,
         };
     }
-    let case = if k < 34 {
+    let case = if r.below(100) < if lexical_focus { 20 } else { 10 } {
+        // KIP's JSON dialect against the model of parse_json
+        let mut t = mutate::json_text(&mut r);
+        if r.chance(1, 4) {
+            let (w, tag) = mutate::mutate_chars(&t, &mut r);
+            t = w;
+            tags.push(tag.to_string());
+        }
+        tags.push("gen:json".into());
+        Case::Json(t)
+    } else if k < 34 {
         let (toks, feats) = sentence(&mut r, false);
         tags.push("gen:sentence".into());
         tags.extend(feats.iter().map(|f| format!("g:{f}")));
@@ -861,7 +898,7 @@ fn main() {
         let next = next.clone();
         let args = args.clone();
         handles.push(std::thread::spawn(move || {
-            let mut w = Worker { child: ChildProc::spawn(stack), model: ModelProc::from_args(&args), shrunk_per_key: BTreeMap::new(), located_per_key: BTreeMap::new() };
+            let mut w = Worker { child: ChildProc::spawn(stack), model: ModelProc::from_args(&args), shrunk_per_key: BTreeMap::new(), located_per_key: BTreeMap::new(), json_mode: false };
             let mut done = Vec::new();
             loop {
                 let i = next.fetch_add(1, std::sync::atomic::Ordering::SeqCst);
@@ -871,15 +908,22 @@ fn main() {
                 let (index, name, ops, tags) = work[i].clone();
                 done.push(finish(&mut w, index, name, ops, tags));
             }
-            (done, w.child.respawns)
+            let cov = w.model.as_mut().map(|m| m.ask("cov")).unwrap_or_default();
+            (done, w.child.respawns, cov)
         }));
     }
     let mut all: Vec<Done> = Vec::new();
     let mut respawns = 0;
+    let mut model_cov: BTreeMap<String, u64> = BTreeMap::new();
     for h in handles {
-        let (d, r) = h.join().expect("worker");
+        let (d, r, cov) = h.join().expect("worker");
         all.extend(d);
         respawns += r;
+        for kv in cov.split(';') {
+            if let Some((k, v)) = kv.split_once('=') {
+                *model_cov.entry(k.to_string()).or_insert(0) += v.parse::<u64>().unwrap_or(0);
+            }
+        }
     }
     all.sort_by_key(|d| d.index);
 
@@ -953,6 +997,26 @@ fn main() {
             }
         }
         report.measured.insert("work_scaling_mutate_clauses".into(), json!(scaling));
+    }
+    // which branches of the Lean model the correspondence run executed (summed over the driver processes)
+    if args.driver.is_some() {
+        const EXPECTED: &[&str] = &[
+            "step:in-comment", "step:comment-ends", "step:string-escaped-char", "step:string-backslash", "step:string-closes", "step:in-string",
+            "step:comment-opens", "step:slash-pending", "step:string-opens", "step:string-opens-after-slash", "step:opener", "step:closer-pops",
+            "step:closer-mismatched", "step:closer-on-empty-stack", "step:plain", "step:plain-after-slash", "step:refuses-too-deep",
+            "budget:ok", "budget:too_long", "budget:too_deep", "family:kql", "family:kml", "family:meta", "family:none",
+            "parse_json:ok", "parse_json:err", "parse_json:too_deep", "json:null", "json:bool", "json:int", "json:int-negative", "json:float",
+            "json:string", "json:string-nonascii", "json:array", "json:array-empty", "json:object", "json:object-empty", "words:yes", "words:no", "reflex",
+        ];
+        let unvisited: Vec<&str> = EXPECTED.iter().copied().filter(|k| model_cov.get(*k).copied().unwrap_or(0) == 0).collect();
+        if model_cov.get("parse_json:oof").copied().unwrap_or(0) > 0 {
+            report.disagreement("the model of parse_json ran out of fuel (limit + 2) on a text the budget accepted", &[], "oof", "never");
+        }
+        report.measured.insert("model_branch_histogram".into(), json!(model_cov));
+        report.measured.insert("model_branches_unvisited".into(), json!(unvisited));
+        if !unvisited.is_empty() && args.replay.is_none() {
+            report.notes.push(format!("model branches not visited by this run: {unvisited:?}"));
+        }
     }
     report.measured.insert("strings_parsed".into(), json!(strings));
     report.measured.insert("parser_thread_stack_bytes".into(), json!(stack));
